@@ -103,7 +103,7 @@ def check(rep):
     from rdkit import Chem
     from rdkit.Chem import Descriptors
 
-    coq = fw.coq_check("C19", ["SrcDistLaw"])
+    coq = fw.coq_check("C19", ["SrcDistLaw", "SrcProb"])
     quick = rep.tier == "quick"
     rnd = random.Random(rep.seed + 19)
     evaluations = 0
